@@ -63,8 +63,8 @@ EXTENDS Operator
 
 CONSTANTS FailKinds      \* what a failing hook raises: names of exception classes (see Fail)
 
-VARIABLES roles, db, val, crash, phase, src, crash1, probes
-rvars == <<roles, db, val, crash, phase, src, crash1, probes>>
+VARIABLES roles, db, val, crash, phase, src, crash1, probes, touched
+rvars == <<roles, db, val, crash, phase, src, crash1, probes, touched>>
 allvars == <<vars, rvars>>
 
 NoConfigs == {}
@@ -102,7 +102,7 @@ DbI == CHOOSE i \in 1..Len(roles) : roles[i] = "db"
 RInitWith(steps, sc, sn, stack, tight, skip) ==
     /\ InitWith(RunCfg(steps, sc, sn, stack, tight, skip, 0))
     /\ roles = stack /\ db = NoDb /\ val = 0 /\ crash = NoCrash
-    /\ phase = 1 /\ src = <<>> /\ crash1 = NoCrash /\ probes = <<>>
+    /\ phase = 1 /\ src = <<>> /\ crash1 = NoCrash /\ probes = <<>> /\ touched = {}
 
 (* ---------- restart ---------- *)
 NodeLess(c1, n1, c2, n2) == c1 < c2 \/ (c1 = c2 /\ n1 < n2)
@@ -143,14 +143,24 @@ ProbeNow == LET v == VisitOrder(cfg.steps) IN
             [e |-> pc, c |-> rc, n |-> rn, at |-> Len(log),
              vals |-> [k \in 1..Len(v) |-> <<v[k][1], v[k][2], LoadStateVal(v[k][1], v[k][2])>>]]
 
+(* ---------- auxiliary data of other interfaces ---------- *)
+\* Database.getH5Group(r) is the documented way for "other interfaces to place data into the database at the correct
+\* timestep": it creates the group of the current (cycle, node) if it is not there yet.  In the uncoupled runs with a
+\* MainInterface the first application interface does so in its interactEveryNode, i.e. BEFORE the database interface writes
+\* the node: the group then exists already, and the node's reactor state must be written into it all the same (every listed
+\* step stays loadable).  touched = the nodes whose group was created this way.
+Touching == ~cfg.tight /\ roles[1] = "main"
+TouchHere(i) == Touching /\ i = FirstF /\ pc = "EN"
+
 RCall == /\ Running /\ Call
          /\ lastc'.cv = TRUE                    \* environment: the couplers report convergence at once (cap = 1 anyway)
          /\ HookEffect(Head(queue))
          /\ probes' = (IF ProbeHere(Head(queue)) THEN Append(probes, ProbeNow) ELSE probes)
+         /\ touched' = (IF TouchHere(Head(queue)) THEN touched \cup {<<rc, rn>>} ELSE touched)
          /\ UNCHANGED <<roles, crash, phase, src, crash1>>
 RDbWrite == /\ Running /\ DbWrite
             /\ db' = WriteSnap(db, "")
-            /\ UNCHANGED <<roles, val, crash, phase, src, crash1, probes>>
+            /\ UNCHANGED <<roles, val, crash, phase, src, crash1, probes, touched>>
 RControl == Running /\ Control /\ UNCHANGED rvars
 \* kind: the class of what the hook raises -- an ordinary exception or one that is not an Exception (SystemExit from sys.exit,
 \* KeyboardInterrupt, another BaseException): Operator.__exit__ runs the error hooks whenever anything is passing through, so
@@ -160,7 +170,7 @@ Fail(kind) ==
         /\ crash' = [e |-> pc, i |-> Head(queue), c |-> rc, n |-> rn, it |-> (IF pc = "CPL" THEN iter ELSE None),
                      open |-> db.st = "open", kind |-> kind]
         /\ db' = ErrorHook(db)
-        /\ UNCHANGED <<vars, roles, val, phase, src, crash1, probes>>
+        /\ UNCHANGED <<vars, roles, val, phase, src, crash1, probes, touched>>
 \* Operator!InitWith for the next state (TLC cannot assign through a primed operator application); RestartIsInit checks that
 \* the two agree
 ReInit(c) ==
@@ -178,7 +188,7 @@ Restart(sc, sn) ==
           /\ crash.kind = CHOOSE k \in FailKinds : TRUE                   \* (the file is the same for every kind: one is enough)
     /\ ReInit(RunCfg(cfg.steps, sc, sn, roles, cfg.tight, cfg.skip, 1))          \* the BOL hook of MainInterface sets the restart point
     /\ phase' = 2 /\ src' = db.snaps /\ crash1' = crash
-    /\ roles' = roles /\ db' = NoDb /\ val' = 0 /\ crash' = NoCrash /\ probes' = <<>>
+    /\ roles' = roles /\ db' = NoDb /\ val' = 0 /\ crash' = NoCrash /\ probes' = <<>> /\ touched' = {}
 RNext == RControl \/ RCall \/ RDbWrite \/ \E kind \in FailKinds : Fail(kind)
 RNextR == RNext \/ \E cn \in Nodes(cfg.steps) : Restart(cn[1], cn[2])
 
@@ -255,6 +265,13 @@ RestartedStatesDiffer ==
     (phase = 2 /\ pc = "Done") =>
         \A m \in 1..Len(db.snaps) : (db.snaps[m].at >= 0 /\ db.snaps[m].lab = "" /\ PlainVal(src, db.snaps[m].c, db.snaps[m].n) # 0 - 1)
                                        => db.snaps[m].val # PlainVal(src, db.snaps[m].c, db.snaps[m].n)
+
+\* a group created for auxiliary data receives the reactor state of its node like any other: it is a complete snapshot as
+\* soon as the database interface has had its turn in the same event (no failure point lies between the two hooks)
+TouchedNodesAreWritten ==
+    \A t \in touched : \/ <<t[1], t[2], "">> \in DbKeys
+                        \/ (Running /\ pc = "EN" /\ t = <<rc, rn>> /\ \A k \in 1..Len(called) : called[k].i # DbI)
+TouchingHappens == (pc = "Done" /\ Touching) => touched = AllNodes
 
 FileView == [exists |-> db.cwd, ok |-> db.ok,
              snaps |-> [k \in 1..Len(db.snaps) |-> [c |-> db.snaps[k].c, n |-> db.snaps[k].n, lab |-> db.snaps[k].lab,
